@@ -354,7 +354,7 @@ pub fn run(tier: Tier, replay: Option<String>) -> i32 {
         }
     }
     // mutants: the whole tree is compared again, failures already present without the edit are not the mutant's
-    let batches = tier.pick(6usize, 60);
+    let batches = tier.pick(6usize, 240);
     let per_batch = tier.pick(60usize, 80);
     let outcome = mutate::run_batches(&base.u, &bin, c.seed, 0x0909, batches, per_batch, mutate::SIZE_KINDS, replay.as_deref(), |t, _batch| {
         let mut st = SizeStats { containers: 0, assignments: 0, approximate: 0, guards: 0, classes: BTreeMap::new(), distinct: BTreeSet::new(), samples: vec![] };
